@@ -15,13 +15,16 @@ XS_Q == {-1, 0, 2}
 
 Rec(a, x) == [a |-> a, x |-> x, it |-> it', cen |-> cen', k |-> k', stage |-> stage', work |-> work', e |-> energy', f |-> force',
               ti |-> tiout', q |-> quirk', ce |-> CenAt(it'), ke |-> KAt(it'), we |-> ExpWork', tie |-> ExpTI']
-WitInit == TLCSet(1, FALSE) /\ TLCSet(2, FALSE) /\ TLCSet(3, FALSE) /\ TLCSet(4, FALSE)
-Wit == /\ ((quirk = {} /\ work # 0) => TLCSet(1, TRUE))
-       /\ ((quirk = {} /\ tiout # <<>>) => TLCSet(2, TRUE))
-       /\ ((quirk = {} /\ runs > 1 /\ it > 1) => TLCSet(3, TRUE))
-       /\ ((quirk # {}) => TLCSet(4, TRUE))
-WitPost == TLCGet(1) /\ TLCGet(2) /\ TLCGet(3) /\ TLCGet(4)
-MCInit == Init /\ hist = <<>> /\ WitInit
+\* vacuity witnesses: the check searches a state satisfying each Witness<i> (a violation of NoWitness<i>)
+Witness1 == quirk = {} /\ work # 0
+NoWitness1 == ~Witness1
+Witness2 == quirk = {} /\ tiout # <<>>
+NoWitness2 == ~Witness2
+Witness3 == quirk = {} /\ runs > 1 /\ it > 1
+NoWitness3 == ~Witness3
+Witness4 == quirk # {}
+NoWitness4 == ~Witness4
+MCInit == Init /\ hist = <<>>
 MCNext == /\ Len(hist) < EmitLen
           /\ \/ \E x \in XS : First(x) /\ hist' = Append(hist, Rec("First", x))
              \/ \E x \in XS : Step(x) /\ hist' = Append(hist, Rec("Step", x))
